@@ -48,10 +48,11 @@ def block_cells(b):
     return dict(zip(b['keys'], b['values']))
 
 
-def make_block(b):
+def make_block(b, initial=None):
+    """initial: the caller's own list of initial values (may be handed to several blocks - each block owns its cells)"""
     from pymodbus.datastore.store import ModbusSequentialDataBlock, ModbusSparseDataBlock
     if b['shape'] == 'seq':
-        return ModbusSequentialDataBlock(b['start'], list(b['values']))
+        return ModbusSequentialDataBlock(b['start'], initial if initial is not None else list(b['values']))
     return ModbusSparseDataBlock(dict(zip(b['keys'], b['values'])))
 
 
@@ -67,10 +68,14 @@ def make_slave(layout, slave_class=None):
             if t[k]['shape'] != 'default':
                 kw[name] = make_block(t[k])
         return cls(zero_mode=layout['zero_mode'], **kw)
-    co = make_block(t['c'])
-    di = co if share in ('bits', 'both') else make_block(t['d'])
-    hr = make_block(t['h'])
-    ir = hr if share in ('regs', 'both') else make_block(t['i'])
+    # 'same_initial': the application initialises two SEPARATE tables from one and the same Python list of values
+    same = layout.get('same_initial')
+    ini_b = list(t['c']['values']) if same in ('bits', 'both') and t['c']['shape'] == 'seq' and t['d'] == t['c'] else None
+    ini_r = list(t['h']['values']) if same in ('regs', 'both') and t['h']['shape'] == 'seq' and t['i'] == t['h'] else None
+    co = make_block(t['c'], ini_b)
+    di = co if share in ('bits', 'both') else make_block(t['d'], ini_b)
+    hr = make_block(t['h'], ini_r)
+    ir = hr if share in ('regs', 'both') else make_block(t['i'], ini_r)
     return cls(di=di, co=co, hr=hr, ir=ir, zero_mode=layout['zero_mode'])
 
 
